@@ -55,6 +55,14 @@ THEOREMS = [
     "Scenic.C15.optional_nonredundant_witness",
     "Scenic.C15.set_order_layout_dependent_witness",
     "Scenic.C15.closure_set_layout_dependent_witness",
+    "Scenic.C15.stored_dependencies_canonical",
+    "Scenic.C15.stored_dependencies_exact",
+    "Scenic.C15.sample_iteration_canonical",
+    "Scenic.C15.construct_and_sample_layout_independent",
+    "Scenic.C15.child_set_layout_dependent_witness",
+    "Scenic.Det.initDependencies_ren",
+    "Scenic.Det.buildTable_ren",
+    "Scenic.Det.sampleAllK_ordered",
     "Scenic.Det.loop_indep_of_checker",
     "Scenic.Det.generateMany_indep_of_checker",
     "Scenic.Det.arranged_verdict",
@@ -73,6 +81,7 @@ SIDE = [
     "Scenic.C15.gen_site_lists_agree",
     "Scenic.C15.gen_segments_complete",
     "Scenic.C15.gen_private_sites",
+    "Scenic.C15.gen_sample_sites_ordered",
 ]
 
 FINGERPRINTS = {
@@ -88,6 +97,8 @@ FINGERPRINTS = {
     "DynamicScenario._toScenario": ("src/scenic/core/dynamics/scenarios.py", "DynamicScenario._toScenario"),
     "Samplable.sampleAll": ("src/scenic/core/distributions.py", "Samplable.sampleAll"),
     "Samplable.sample": ("src/scenic/core/distributions.py", "Samplable.sample"),
+    "Samplable.__init__": ("src/scenic/core/distributions.py", "Samplable.__init__"),
+    "LazilyEvaluable.__init__": ("src/scenic/core/lazy_eval.py", "LazilyEvaluable.__init__"),
     "SampleChecker": ("src/scenic/core/sample_checking.py", "SampleChecker"),
     "BasicChecker": ("src/scenic/core/sample_checking.py", "BasicChecker"),
     "WeightedAcceptanceChecker": ("src/scenic/core/sample_checking.py", "WeightedAcceptanceChecker"),
@@ -872,6 +883,35 @@ def _expected_closure_sequence(req):
     return seq
 
 
+def corr_initdeps(ctx):
+    """(C-a'') the real `Samplable.__init__` / `LazilyEvaluable.__init__` on argument lists mixing lazy and non-lazy
+    values, repeated values, empty / all-constant lists vs the model's `initDependencies` (driver line `initdeps`)"""
+    from scenic.core.distributions import Samplable, Range, Options
+    rng = ctx.rng
+    n = ctx.budget(40, 600)
+    cases = []
+    for c in range(n):
+        pool = [Range(0, 1) for _ in range(rng.randint(0, 4))] + [Options([1, 2])] * rng.randint(0, 1)
+        consts = [3, 2.5, "s", None, (1, 2), Samplable(())]   # Samplable(()) needs no sampling: not lazy
+        k = rng.choice([0, 1, 2, 3, 5, 8])
+        args = [rng.choice(pool) if pool and rng.random() < 0.6 else rng.choice(consts) for _ in range(k)]
+        objs = list({id(a): a for a in args}.values())
+        rng.shuffle(objs)                      # model identities are unrelated to the argument order
+        ident = {id(a): i + 1 for i, a in enumerate(objs)}
+        lazy = [ident[id(a)] for a in objs if getattr(a, "_isLazy", False)]
+        real = Samplable(args if c % 2 else tuple(args))._dependencies
+        cases.append((lazy, [ident[id(a)] for a in args], [ident[id(a)] for a in real], args))
+    lines = ["initdeps | " + " ".join(map(str, lz)) + " | " + " ".join(map(str, ar)) for lz, ar, _, _ in cases]
+    outs = ctx.driver(lines)
+    for (lz, ar, real, args), line, out in zip(cases, lines, outs):
+        want = "ok " + (",".join(map(str, real)) if real else "-")
+        ctx.case(("initdeps", tuple(lz), tuple(ar)), nontrivial=len(real) >= 2)
+        ctx.hist("initdeps_args", len(ar))
+        if out.strip() != want:
+            ctx.broken("correspondence", "initdeps", f"{line!r}: model {out!r}, real {want!r}")
+            break
+
+
 def corr_compile(ctx):
     """(C-a) and (C-c) on the same compilations.  (C-c): run the real compiler on generated programs with passive hooks recording what the construction of
     Scenario.dependencies reads (bindings, closure functions and their cells, objects, ego, parameters,
@@ -1223,6 +1263,7 @@ def run(ctx):
         ctx.extra["unordered_roots"] = roots
         ctx.extra["dependency_segments"] = d["segments"]
         ctx.extra["compile_sources"] = d["sources"]
+        ctx.extra["sample_sites"] = {n: o for n, o, _ in d["sample_sites"]}
         if os.environ.get("VERIF_UPDATE_FINGERPRINTS") == "1":
             with open(PINNED, "w") as f:
                 json.dump(d, f, indent=1, sort_keys=True)
@@ -1237,9 +1278,10 @@ def run(ctx):
         ctx.notes.append(f"translator tie lost: {e}; relying on the correspondence and the process oracle at thorough budget")
     pr = ctx.prove(THEOREMS, side_conditions=SIDE)
     if ctx.tier == "thorough" and pr.build_ok:
-        ctx.leanchecker(["ScenicModel.Props.C15", "ScenicModel.Props.C15Core", "ScenicModel.Props.C15Deps",
+        ctx.leanchecker(["ScenicModel.Props.C15", "ScenicModel.Props.C15Core", "ScenicModel.Props.C15Deps", "ScenicModel.Props.C15Sample",
                          "ScenicModel.Lemmas.Determinism", "ScenicModel.Lemmas.DepOrder",
-                         "ScenicModel.Model.Determinism", "ScenicModel.Model.DepOrder"])
+                         "ScenicModel.Model.Determinism", "ScenicModel.Model.DepOrder",
+                         "ScenicModel.Model.SampleOrder"])
     found = False
     driver_ok = pr.build_ok
     if not driver_ok:
@@ -1248,6 +1290,7 @@ def run(ctx):
         rc, _log = ctx.lake(["build", "drv_c15"])
         driver_ok = rc == 0
     if driver_ok:
+        corr_initdeps(ctx)
         corr_compile(ctx)
         corr_generate(ctx)
     found |= direct_processes(ctx, roots, Infra)
